@@ -89,7 +89,14 @@ def build(inp) -> Case:
     ts = [float(common.unjson_num(t)) for t in inp["ts"]]
     ts = [t for t in ts if min(Mp, Mn) < t < max(Mp, Mn)]
     pre, lines = [], []
-    e = Scores(pos, neg, nb_easy_pos=k, nb_easy_neg=m, score_class=sc, equal_class=ec)
+    if len(pos) + len(neg) < 5000 and (len(pos) * 7 + len(neg) * 3 + k + m) % 4 == 0:
+        # the object with easy samples obtained through the labelled-data route (labels + scores, any order)
+        lab_ = np.array([1] * len(pos) + [0] * len(neg))
+        sco_ = np.array(pos + neg, dtype=float)
+        perm_ = np.random.RandomState((len(pos) * 31 + len(neg) * 17 + k * 7 + m) % (2**31)).permutation(len(lab_))
+        e = Scores.from_labels(lab_[perm_], sco_[perm_], pos_label=1, nb_easy_pos=k, nb_easy_neg=m, score_class=sc, equal_class=ec)
+    else:
+        e = Scores(pos, neg, nb_easy_pos=k, nb_easy_neg=m, score_class=sc, equal_class=ec)
     mpos, mneg = pos + [Mp] * k, neg + [Mn] * m
     mt = Scores(mpos, mneg, score_class=sc, equal_class=ec)
     ce = thr_common.cells(e.cm(np.array(ts)))
